@@ -23,22 +23,26 @@ class Renderer(object):
 
     def __init__(self, rnd, pool):
         self.rnd = rnd
-        self.pool = [l for l in pool if render.has_star(l)]
+        self.pool = [l for l in pool if self.usable(l)]
         self.partner = {}
         self.good = {}
+
+    def usable(self, name):
+        good = render.unambiguous_aliases(render.lang(name), None)
+        return render.has_star(name) and all(good[k] for k in good)
 
     def pair(self):
         l1 = self.rnd.choice(self.pool)
         if l1 not in self.partner:
             cands = sorted(l for l in render.languages() if l != l1)
             random.Random(len(l1) * 7919 + len(cands)).shuffle(cands)
-            self.partner[l1] = [l for l in cands if render.disjoint_pair_ok(l1, l)][:6]
+            self.partner[l1] = [l for l in cands if self.usable(l) and render.disjoint_pair_ok(l1, l)][:6]
         return l1, self.rnd.choice(self.partner[l1])
 
     def aliases(self, name, other):
         key = (name, other)
         if key not in self.good:
-            self.good[key] = render.unambiguous_aliases(render.lang(name), render.lang(other))
+            self.good[key] = render.unambiguous_aliases(render.lang(name), None)
         return self.good[key]
 
     def text(self, entry, lines, l1=None, l2=None):
@@ -168,7 +172,7 @@ def run(chk):
         chk.violation("C05.design." + name, "design:%s" % name, "TLC: invariant %s violated in GherkinParser_MC (%s)" % (name, cfg))
     alphabet = json.loads(r.by_tag("ALPHA")[0][1])
     by_code = {a["code"]: a["ln"] for a in alphabet}
-    cases = [json.loads(t[1]) for t in r.by_tag("CASE")]
+    cases = [{"e": t[1], "s": t[2], "k": t[3], "n": t[4], "why": t[5], "site": t[6], "kf": t[7]} for t in r.by_tag("CASE")]
     cases.sort(key=lambda c: (c["e"], c["s"]))
     chk.exhaustive = True
     pool = list(QUICK_LANGS)
@@ -224,8 +228,9 @@ def run(chk):
                 chk.note("prediction mismatch: %s predicted %s observed %s text=%r" % (
                     meta[t[1]]["entry"], t[2:], byid[t[1]]["obs"], meta[t[1]]["text"][:200]))
     chk.divergences = div
-    for i, vs in sorted(verdicts.items()):
-        for v in vs:
+    flat = sorted(((len(meta[i]["text"]), i, v) for i, vs in verdicts.items() for v in vs), key=lambda x: x[:2])
+    for _, i, v in flat:
+        if True:
             m = meta[i]
             row = byid[i]
             chk.violation(v[2], sig_of(v, row, m["at"]),
@@ -243,7 +248,11 @@ def run(chk):
     chk.extra["rows_by_kind"] = {k: sum(1 for m in meta.values() if m["kind"] == k) for k in sorted({m["kind"] for m in meta.values()})}
     chk.extra["predicted_known_defect_sequences"] = sum(1 for c in cases if c["kf"])
     chk.extra["observed_outcomes"] = {k: sum(1 for r_ in rows if r_["obs"]["k"] == k) for k in ("accept", "error", "internal", "timeout")}
-    chk.extra["languages"] = list(pool)
+    chk.extra["languages"] = sorted({m["l1"] for m in meta.values()})
+    chk.extra["predicted_error_reasons"] = {w: sum(1 for c in cases if c["k"] == "error" and c["why"] == w)
+                                            for w in sorted({c["why"] for c in cases if c["k"] == "error"})}
+    chk.extra["predicted_crash_sites"] = {w: sum(1 for c in cases if c["k"] == "crash" and c["site"] == w)
+                                          for w in sorted({c["site"] for c in cases if c["k"] == "crash"})}
     chk.assumptions = ["renderings for C05 use only aliases that the keyword table reads unambiguously (alias collisions are C04's subject)",
                        "languages without a '* ' alias (en-tx, sl, ml) are not used for soups",
                        "the language ARGUMENT of the entry points is always a known language (only the text is hostile)",
